@@ -113,7 +113,19 @@ def emit_one(g, gi, runtime_ctor=False, limits=None, extra_decl=''):
     o.append('}')
     return '\n'.join(o)
 
+def analyzer_bytes(g):
+    """rough size of the LR(1) analyser that the parser constructor keeps in one stack frame (run-time construction needs it on the stack)"""
+    tc = len(g.terms) + 2; nc = len(g.nts) + 1; rc = len(g.rules) + 1
+    ml = max([1] + [len(r.rhs) for r in g.rules]); ss = ml + 1
+    addr = rc * ss * tc
+    cap = (sum(len(r.rhs) + 1 for r in g.rules)) * tc + 2
+    sv = cap * 4 + 8
+    state = sv + addr // 8 + (tc + nc) * sv
+    return cap * state + addr * sv
+
 def emit_tu(grammars, runtime_ctor=(), limits=None):
+    # run-time construction is only attempted where the analyser fits on a (raised) stack
+    runtime_ctor = {gi for gi in runtime_ctor if gi < len(grammars) and analyzer_bytes(grammars[gi]) < 300 * 1024 * 1024}
     o = ['#include "vf_driver.hpp"', 'using namespace ctpg; using namespace ctpg::buffers; using namespace ctpg::ftors;']
     for gi, g in enumerate(grammars):
         o.append(emit_one(g, gi, runtime_ctor=(gi in runtime_ctor), limits=(limits or {}).get(gi)))
